@@ -52,7 +52,7 @@ def rule_limit_bounds_every_rejection(ctx):
     try:
         decide_kinds(ctx, "O7.5", "validate(limit): rejections need an offending row", "cutplace.validio.validate", cell, min_cells=40)
     except AnalysisError as error:
-        if "on order symbol" not in str(error):
+        if "on order symbol" not in str(error) and "range over abstract bounds" not in str(error):
             raise
         numeric[0] = "regions"  # the code computes with the header count or the limit
         decide_kinds(ctx, "O7.5", "validate(limit): rejections need an offending row", "cutplace.validio.validate", cell, min_cells=40)
